@@ -25,13 +25,14 @@ func init() {
 	register("C16", propMeta{
 		Level: "other",
 		Explanation: "R16a: every bus.Monitor call of package command is reached only through the nil-error edge of the call that persists the change (exec/run, which returns after the persistence wait, C06). R16b: not for previews (R14a restricted to the monitor methods). R16c: in every exported write method every path to a nil-error return passes a monitor call or the dry-run edge (at least once). " +
-			"R16d (roles): the values passed to each monitor method are the ones persisted — RevertedTransaction(reverted ← transaction read from the store for the id, revert ← RevertTransaction of the persisted log payload), CommittedTransactions(← Transaction / AccountMetadata of the persisted payload), Saved/DeletedMetadata(← the parameters that were also stored in the log payload) — and ledgerMonitor maps each parameter to the payload field of the same role.",
+			"R16d (roles): the values passed to each monitor method are the ones persisted — RevertedTransaction(reverted ← transaction read from the store for the id, revert ← RevertTransaction of the persisted log payload), CommittedTransactions(← Transaction / AccountMetadata of the persisted payload), Saved/DeletedMetadata(← the parameters that were also stored in the log payload) — and ledgerMonitor maps each parameter to the payload field of the same role. R16f: every method of bus.ledgerMonitor required by bus.Monitor hands a message to the publisher on every returning path (package helpers stepped through): no filter drops the event of a committed change.",
 		NotDecided:  "delivery by the broker (publish logs and drops errors); events for writes replayed through an idempotency key are published again (at-least-once).",
 		Trusted:     []string{"watermill publisher"},
 	}, func(c *Ctx) {
 		ruleR16ac(c)
 		ruleR14a(c, "R16b", func(kind string) bool { return strings.HasPrefix(kind, "monitor.") })
 		ruleR16d(c)
+		ruleR16f(c)
 		// R16e: a write whose log was handed off cannot report failure — the methods publish only on the
 		// nil-error edge, so such a path persists a change that is never published (shared with C06 R06f)
 		ruleR06fAs(c, "R16e", "a path returns an error although the log was already handed to the batcher: the change is persisted but its event is never published (the write methods publish on the nil-error edge only)")
@@ -755,4 +756,70 @@ func argIsPayloadField(v ssa.Value, payload, field string, m *cmdModel, c *Ctx) 
 		}
 	}
 	return false
+}
+
+// ---- R16f: the publishing monitor publishes on every path ------------------------------------------------
+//
+// The commander calls the monitor once per persisted change (R16a/b/e); the monitor that is wired to the bus must
+// turn every such call into a message. Each method of bus.ledgerMonitor required by bus.Monitor reaches
+// message.Publisher.Publish on every returning path (helpers of the package are stepped through): no early return,
+// no filter that drops an event for a change that is committed (a "do not announce twice" high-water mark drops the
+// event of the slower of two concurrent writers).
+func ruleR16f(c *Ctx) {
+	const rule = "R16f"
+	mon := c.Named(pkgBus, "Monitor")
+	if mon == nil {
+		c.undecided(rule, "anchor:bus.Monitor", token.NoPos, "interface not found")
+		return
+	}
+	it, ok := mon.Underlying().(*types.Interface)
+	if !ok {
+		return
+	}
+	isPublish := func(ci ssa.CallInstruction) bool {
+		cc := ci.Common()
+		return cc.IsInvoke() && cc.Method.Name() == "Publish" && isNamed(cc.Value.Type(), "github.com/ThreeDotsLabs/watermill/message", "Publisher")
+	}
+	n := 0
+	for i := 0; i < it.NumMethods(); i++ {
+		name := it.Method(i).Name()
+		fn := c.Fn(pkgBus, "ledgerMonitor."+name)
+		key := "ledgerMonitor." + name + ":publishes-on-every-path"
+		if fn == nil || len(fn.Blocks) == 0 {
+			c.undecided(rule, key, token.NoPos, "bus.ledgerMonitor."+name+" not found")
+			continue
+		}
+		n++
+		c.seeFn(fn)
+		obl := newOblSet(c, rule)
+		obl.expect(key, fn.Pos(), "every returning path has handed a message to the publisher")
+		pr := &PathRule{
+			Inline: func(call ssa.CallInstruction) []*ssa.Function {
+				if g := staticCallee(call); g != nil && fnPkgPath(origin(g)) == pkgBus && len(g.Blocks) > 0 {
+					return []*ssa.Function{g}
+				}
+				return nil
+			},
+			MaxDepth: 3,
+			Step: func(pc *PathCtx, s uint64, ins ssa.Instruction) uint64 {
+				if ci, ok := ins.(ssa.CallInstruction); ok && isPublish(ci) {
+					return s | 1
+				}
+				return s
+			},
+			Exit: func(pc *PathCtx, s uint64, ins ssa.Instruction) {
+				if pc.parent != nil {
+					return
+				}
+				if _, isRet := ins.(*ssa.Return); isRet && s&1 == 0 {
+					obl.violate(key, ins.Pos(), "bus.ledgerMonitor."+name+" returns on a path that published nothing: a committed change is never announced", pc.Trail())
+				}
+			},
+		}
+		c.RunPaths(fn, 0, pr)
+		obl.flush()
+	}
+	if n < 4 {
+		c.undecided(rule, "floor:monitor-methods", token.NoPos, fmt.Sprintf("expected the four methods of bus.Monitor on ledgerMonitor, found %d", n))
+	}
 }
